@@ -13,6 +13,7 @@ import RotoV.Lemmas.Pratt
 import RotoV.Lemmas.Literal
 import RotoV.Generated.LookAhead
 import RotoV.Lemmas.LookAhead
+import RotoV.Generated.C09FStrText
 
 namespace RotoV.C09
 open RotoV RotoV.Pratt RotoV.Literal RotoV.FString RotoV.Gen.Precedence
@@ -489,6 +490,89 @@ theorem lookahead_mode_safe (s : LookAhead.Lx) (h : LookAhead.ModeSafe s) :
     (∀ t s', s.next = some (t, s') → LookAhead.ModeSafe s') :=
   ⟨fun n => LookAhead.peekMany_modeSafe _ (by decide) n s h,
    LookAhead.peek_modeSafe s h, LookAhead.next_modeSafe s h⟩
+
+/-! ### the brace pass of `unescape_f_string_part`, tied to the source
+
+`Gen.C09FStrText` holds the backslash arm of `unescape_f_string_part` as the
+translator reads it from src/parser/expr.rs: the `&&` chain of tests on the
+peekable character iterator (`next()` consumes whatever comes, `peek()`
+nothing, `next_if(..)` only a match), the character ending the skip loop, and
+the characters whose doubling is a brace escape. -/
+
+/-- the generated pass: `Model/FString.partTextWith` run on the generated facts -/
+def partTextGen (raw : List Char) : Option (List Char) :=
+  partTextWith (armConsumed Gen.C09FStrText.backslashConds Gen.C09FStrText.backslashSkipStop)
+    Gen.C09FStrText.braceChars raw []
+
+/-- T3e (`backslash_arm_generated`). After a backslash, for EVERY continuation
+    of the text, the GENERATED arm consumes exactly what the documented pass
+    consumes: the next character whatever it is (so the second backslash of
+    `\\` can never start an escape), and after `u{` everything up to and
+    including the closing `}`. -/
+theorem backslash_arm_generated (cs : List Char) :
+    armConsumed Gen.C09FStrText.backslashConds Gen.C09FStrText.backslashSkipStop cs = armDoc cs := by
+  match cs with
+  | [] => rfl
+  | [d] =>
+    simp only [armConsumed, Gen.C09FStrText.backslashConds, Gen.C09FStrText.backslashSkipStop, runConds, armDoc]
+    by_cases h1 : d = 'u' <;> simp [h1]
+  | d :: e :: cs =>
+    simp only [armConsumed, Gen.C09FStrText.backslashConds, Gen.C09FStrText.backslashSkipStop, runConds, armDoc]
+    by_cases h1 : d = 'u' <;> by_cases h2 : e = '{' <;> simp [h1, h2, skipCount] <;> omega
+
+example : armConsumed Gen.C09FStrText.backslashConds Gen.C09FStrText.backslashSkipStop ['\\', 'u', '{', '{'] = 1 ∧
+    armConsumed Gen.C09FStrText.backslashConds Gen.C09FStrText.backslashSkipStop ['u', '{', '4', '1', '}', '{'] = 5 := by
+  decide
+
+/-- the generated brace characters are the documented ones -/
+theorem brace_chars_generated : Gen.C09FStrText.braceChars = ['{', '}'] := by decide
+
+/-- T3f (`partText_generated`). For EVERY text — valid or not, any mixture of
+    backslashes, `u`, braces and anything else — the pass run on the GENERATED
+    decisions computes what the hand model `partText` computes; together with
+    `fstring_text_correct` the statements about `partText` are statements about
+    the source's decisions. -/
+theorem partText_generated (raw : List Char) : partTextGen raw = partText raw := by
+  have h : armConsumed Gen.C09FStrText.backslashConds Gen.C09FStrText.backslashSkipStop = armDoc :=
+    funext backslash_arm_generated
+  unfold partTextGen partText
+  rw [h, brace_chars_generated]
+  exact partTextWith_doc raw []
+
+/-- T3g (`fstring_text_generated`). For EVERY f-string text built from plain
+    characters (arbitrary Unicode), documented escape sequences (including `\\\\`
+    directly followed by `u`, `x`, a doubled brace, … and escaped braces such as
+    `\\x7b`), `{{` and `}}`, in ANY order, the pass with the generated decisions
+    returns the documented text. -/
+theorem fstring_text_generated (items : List Item) (hok : ∀ it ∈ items, it.ok) :
+    partTextGen (spell items) = some (meaning items) := by
+  rw [partText_generated]
+  exact fstring_text_correct items hok
+
+/-- non-vacuity, the class "escaped backslash, `u`, brace escapes": the text
+    `\\\\u{{x}}` (an escaped backslash, `u`, `{{`, `x`, `}}`) means `\\u{x}` -/
+example : partTextGen ['\\', '\\', 'u', '{', '{', 'x', '}', '}'] = some ['\\', 'u', '{', 'x', '}'] := by
+  have := fstring_text_generated
+    [.esc ['\\', '\\'] '\\', .plain 'u', .lbrace, .plain 'x', .rbrace]
+    (by
+      intro it hit
+      simp only [List.mem_cons, List.not_mem_nil, or_false] at hit
+      rcases hit with rfl | rfl | rfl | rfl | rfl
+      · exact documented_escapes_ok.2.2.2.2.2.2.1
+      · exact ⟨by decide, by decide, by decide⟩
+      · trivial
+      · exact ⟨by decide, by decide, by decide⟩
+      · trivial)
+  simpa [spell, meaning, Item.spelling, Item.value] using this
+
+/-- necessity (`backslash_arm_must_consume`): an arm that consumes the character
+    after the backslash only when it is `u` (`next_if`) takes the second
+    backslash of `\\\\` for the start of `\\u{…}`: the text `\\\\u{{x}}` then
+    keeps its doubled braces. -/
+theorem backslash_arm_must_consume :
+    partTextWith (armConsumed [.nextIfIs 'u', .nextIfIs '{'] (some '}')) ['{', '}']
+      ['\\', '\\', 'u', '{', '{', 'x', '}', '}'] [] = some ['\\', 'u', '{', '{', 'x', '}', '}'] := by
+  simp [partTextWith, armConsumed, runConds, skipCount, unescape, simpleEscape]
 
 /-- T6b (`fstring_scanner_starts_at_text`). When the parser takes `f"` from a
     mode-safe lexer the queue is empty afterwards, so `f_string_part` — which
